@@ -407,25 +407,43 @@ func vfC06TempDir(t vfC06Fataler) (dir string, cleanup func()) {
 	return dir, func() { _ = os.RemoveAll(dir) }
 }
 
+// vfC06Placeholders are what a table position holds before a run-time edit
+// puts the wanted entry there: an address, an IPv6 address, a CNAME and an
+// exception, so that an edit changes the kind of the entry in every direction.
+var vfC06Placeholders = []string{"192.0.2.250", "2001:db8:ffff::250", "placeholder-target.invalid", "A", "AAAA"}
+
 // vfC06Build makes a DNSFilter holding the table in the given order.  mode 0:
 // from the configuration; 1: every entry through POST /control/rewrite/add;
-// 2: first half from the configuration, the rest through the API.
+// 2: first half from the configuration, the rest through the API; 3: every
+// position first holds a placeholder entry (from the configuration or the API)
+// and is then edited into the wanted entry through PUT /control/rewrite/update;
+// 4: through the API with junk entries in between that are then removed through
+// POST /control/rewrite/delete.
 func vfC06Build(t vfC06Fataler, dir string, tab []vfC06Entry, mode int) (d *DNSFilter) {
 	vfC06Quiet.Do(func() { log.SetOutput(io.Discard) })
 
 	split := len(tab)
 	switch mode {
-	case 1:
+	case 1, 4:
 		split = 0
 	case 2:
 		split = len(tab) / 2
+	case 3:
+		split = (len(tab) + 1) / 2
+	}
+
+	placeholder := func(i int) (e vfC06Entry) {
+		return vfC06Entry{Domain: fmt.Sprintf("placeholder-%d.invalid", i), Answer: vfC06Placeholders[i%len(vfC06Placeholders)]}
 	}
 
 	conf := &Config{
 		DataDir:        dir,
 		ConfigModified: func() {},
 	}
-	for _, e := range tab[:split] {
+	for i, e := range tab[:split] {
+		if mode == 3 {
+			e = placeholder(i)
+		}
 		conf.Rewrites = append(conf.Rewrites, &LegacyRewrite{Domain: e.Domain, Answer: e.Answer})
 	}
 
@@ -434,14 +452,62 @@ func vfC06Build(t vfC06Fataler, dir string, tab []vfC06Entry, mode int) (d *DNSF
 		t.Fatalf("VERIF-INCONCLUSIVE filtering.New: %v", err)
 	}
 
-	for _, e := range tab[split:] {
-		body, _ := json.Marshal(map[string]string{"domain": e.Domain, "answer": e.Answer})
-		r := httptest.NewRequest(http.MethodPost, "/control/rewrite/add", bytes.NewReader(body))
+	call := func(method, path string, h http.HandlerFunc, body any) {
+		b, _ := json.Marshal(body)
 		w := httptest.NewRecorder()
-		d.handleRewriteAdd(w, r)
+		h(w, httptest.NewRequest(method, path, bytes.NewReader(b)))
 		if w.Code != http.StatusOK {
 			d.Close()
-			t.Fatalf("rewrite/add of %+v refused: %d %s", e, w.Code, w.Body.String())
+			t.Fatalf("%s %s %s refused: %d %s", method, path, b, w.Code, w.Body.String())
+		}
+	}
+	ent := func(e vfC06Entry) map[string]string { return map[string]string{"domain": e.Domain, "answer": e.Answer} }
+
+	for i, e := range tab[split:] {
+		if mode == 3 {
+			e = placeholder(split + i)
+		}
+		if mode == 4 {
+			call(http.MethodPost, "/control/rewrite/add", d.handleRewriteAdd, ent(vfC06Entry{
+				Domain: fmt.Sprintf("junk-%d.invalid", i), Answer: vfC06Placeholders[i%len(vfC06Placeholders)],
+			}))
+		}
+		call(http.MethodPost, "/control/rewrite/add", d.handleRewriteAdd, ent(e))
+	}
+
+	switch mode {
+	case 3:
+		for i, e := range tab {
+			call(http.MethodPut, "/control/rewrite/update", d.handleRewriteUpdate, map[string]any{
+				"target": ent(placeholder(i)), "update": ent(e),
+			})
+		}
+	case 4:
+		for i := range tab {
+			call(http.MethodPost, "/control/rewrite/delete", d.handleRewriteDelete, ent(vfC06Entry{
+				Domain: fmt.Sprintf("junk-%d.invalid", i), Answer: vfC06Placeholders[i%len(vfC06Placeholders)],
+			}))
+		}
+	}
+
+	if mode >= 3 {
+		// what the list API shows must be the wanted table, in order
+		w := httptest.NewRecorder()
+		d.handleRewriteList(w, httptest.NewRequest(http.MethodGet, "/control/rewrite/list", nil))
+		var listed []struct{ Domain, Answer string }
+		if jerr := json.Unmarshal(w.Body.Bytes(), &listed); jerr != nil {
+			d.Close()
+			t.Fatalf("rewrite/list: %v: %s", jerr, w.Body.String())
+		}
+		if len(listed) != len(tab) {
+			d.Close()
+			t.Fatalf("after the edits rewrite/list has %d entries, want %d: %s", len(listed), len(tab), w.Body.String())
+		}
+		for i, e := range tab {
+			if !strings.EqualFold(listed[i].Domain, e.Domain) || !strings.EqualFold(listed[i].Answer, e.Answer) {
+				d.Close()
+				t.Fatalf("after the edits rewrite/list entry %d is %+v, want %+v", i, listed[i], e)
+			}
 		}
 	}
 
@@ -740,7 +806,7 @@ func TestVFC06Table(t *testing.T) {
 	vfkit.Begin(t)
 	rapid.Check(t, func(t *rapid.T) {
 		tab, pool, heads := vfC06DrawTable(t)
-		mode := rapid.IntRange(0, 2).Draw(t, "build_mode")
+		mode := rapid.IntRange(0, 4).Draw(t, "build_mode")
 
 		orders := [][]vfC06Entry{tab}
 		nOrders := rapid.IntRange(1, 2).Draw(t, "extra_orders")
